@@ -56,6 +56,9 @@ pub struct Ctx {
     pub held: Vec<Owned>,
     /// harness-owned probes (lookup keys) alive during the window
     pub extras: Vec<Owned>,
+    /// other harness-owned containers kept alive until the step has been judged
+    pub stash: Vec<Box<dyn std::any::Any>>,
+    pub stash_serials: Vec<u32>,
     pub allocs: u64,
     pub notes: Vec<Note>,
     pub panicked: bool,
@@ -73,6 +76,8 @@ impl Ctx {
             set_mode,
             held: vec![],
             extras: vec![],
+            stash: vec![],
+            stash_serials: vec![],
             allocs: 0,
             notes: vec![],
             panicked: false,
